@@ -24,6 +24,12 @@ Theorem C13_contains_domain : forall s x, contains s x = mem x (domain s).
 Proof. exact contains_domain. Qed.
 Print Assumptions C13_contains_domain.
 
+(* the domain lists every name once: together with C13_views, len = number of distinct keys and iteration / keys /
+   items never repeat a name *)
+Theorem C13_domain_distinct : forall s, wf_scope s = true -> NoDup (domain s).
+Proof. exact domain_NoDup. Qed.
+Print Assumptions C13_domain_distinct.
+
 (* HISTORY: after any history, any further sequence of operations returns what it returns on fresh objects of
    the same structure (the memoisation fields are unobservable) *)
 Theorem C13_history : forall s ops1 ops2,
